@@ -195,14 +195,15 @@ func (r Relation) Less(v Value) bool {
 		return r.Kind() < v.Kind()
 	}
 	r2 := v.(Relation)
-	if r.attrs.LessNamesSlice(r2.attrs) && !r.attrs.EqualNamesSlice(r2.attrs) {
-		return true
+	if !r.attrs.EqualNamesSlice(r2.attrs) {
+		return r.attrs.LessNamesSlice(r2.attrs)
 	}
 	if r.Count() != r2.Count() {
 		return r.Count() < r2.Count()
 	}
 
-	for i, j := r.ArrayEnumerator(), r2.ArrayEnumerator(); i.MoveNext() && j.MoveNext(); {
+	names := r.attrs.GetSorted()
+	for i, j := r.orderedEnumerator(names), r2.orderedEnumerator(names); i.MoveNext() && j.MoveNext(); {
 		left, right := i.Current(), j.Current()
 		if left.Less(right) {
 			return true
@@ -212,6 +213,13 @@ func (r Relation) Less(v Value) bool {
 		}
 	}
 	return false
+}
+
+func (r Relation) orderedEnumerator(names NamesSlice) ValueEnumerator {
+	return &relationEnumerator{
+		attrs: r.attrMap,
+		i:     r.rows.OrderedRange(r.projectionBasedOnNames(names)),
+	}
 }
 
 func (r Relation) Negate() Value {
